@@ -15,4 +15,8 @@ theorem persister_blocks :
     by the reset that follows are the same records — nothing can enter the batch between the write and the reset -/
 theorem flush_is_one_critical_section : (serialFlushHoldsLock && dbFlushHoldsLock) = true := by decide
 
+/-- DB resets its pending batch only after the LevelDB write of a flush succeeded (size-triggered and timer-triggered flush):
+    a write that fails leaves the acknowledged operations in the batch, to be written by the next flush -/
+theorem failed_write_keeps_the_batch : dbResetOnlyAfterSuccessfulWrite = true := by decide
+
 end SV.Facts
